@@ -30,6 +30,36 @@ mut("c17_sustain_scratch_module_level", "C17", [
 def complex_sustain_from_parsed_datas(datas: Sequence[NoteEvent.ParsedData]) -> ComplexSustain:'''),
 ], "a context switch between filling and reading the shared scratch list (two threads parsing)")
 
+mut("c17_module_scratch_one_line_window", "C17", [
+    ("chartparse/instrument.py",
+     '''        tick = datas[0].tick
+        note = Note.from_parsed_datas(datas)''',
+     '''        _current.tick = datas[0].tick
+        tick = _current.tick
+        note = Note.from_parsed_datas(datas)'''),
+    ("chartparse/instrument.py",
+     '''_SustainList = typ.NewType("_SustainList", list[Ticks | None])''',
+     '''class _Current:
+    tick: int = 0
+
+
+_current = _Current()
+
+_SustainList = typ.NewType("_SustainList", list[Ticks | None])'''),
+], "two threads parsing notes; a context switch exactly between the store and the load of a module-level temporary (a one-line window), with the other thread passing the same line meanwhile")
+
+mut("c17_class_attribute_as_temporary", "C17", [
+    ("chartparse/instrument.py",
+     '''        note_data, star_power_data, track_data = cls._parse_data_from_chart_lines(lines)''',
+     '''        InstrumentTrack._bpm_events_in_use = bpm_events
+        note_data, star_power_data, track_data = cls._parse_data_from_chart_lines(lines)'''),
+    ("chartparse/instrument.py",
+     '''        note_events = cls._build_note_events_from_data(note_data, star_power_events, bpm_events)''',
+     '''        note_events = cls._build_note_events_from_data(
+            note_data, star_power_events, InstrumentTrack._bpm_events_in_use
+        )'''),
+], "two threads parsing different charts: the tempo map of the other chart is used for the notes when a switch falls between the two sites")
+
 mut("c17_resolution_cached_by_object_id", "C17", [
     ("chartparse/instrument.py",
      '''        hopo_state = NoteEvent._compute_hopo_state(
